@@ -280,7 +280,9 @@ def run(ctx):
     ctx.extra["big_cases"] = bsum
     for r in rej:
         ctx.violation("trace_%s" % r["case_id"], {"kind": "TRACE-big", "sig": _sig_of(r), "rejected": r,
-                                                  "gen": {"big": True, "seed": ctx.seed, "case": int(r["case_id"][8:]), "minlen": blo, "maxlen": bhi}})
+                                                  "gen": {"big": True, "seed": ctx.seed, "case": int(r["case_id"][8:]),
+                                                          "minlen": 150000 if int(r["case_id"][8:]) >= 1000 else blo,
+                                                          "maxlen": 240000 if int(r["case_id"][8:]) >= 1000 else bhi}})
 
     C.log("[C11] TRACE-big done in %.0fs (%d cases, %d rejected)" % (time.time() - t0, len(bcases), len(rej)))
     ctx.rule = ("REPLAY: every terminal state of the bounded models (all references within the bounds x k x segment size) run through "
